@@ -108,6 +108,15 @@ def main():
                        "same": int(reported(qt[a]) == reported(qt[b]))})
       except Exception as e:
         errors.append({"k": "exc", "op": "merge", "w": w, "x": x, "exc": repr(e)[:200]})
+    # a merge of three inputs [A, B, A]: the output still has to contain every operand type
+    if a != b and ((a + 5 * b) % 6 == 0 or tier == "thorough"):
+      for kind in ("Maximum", "Concatenate"):
+        try:
+          mg = merge_factory.MergeFactory().make_quantizer([(qt[a], None), (qt[b], None), (qt[a], None)], kind)
+          events.append({"op": "merge", "kind": kind, "a": reported(qt[a]), "b": reported(qt[b]), "out": reported(mg.output),
+                         "same": 0, "n_inputs": 3})
+        except Exception as e:
+          errors.append({"k": "exc", "op": "merge", "w": w, "x": x, "exc": repr(e)[:200]})
   write_ndjson("%s.%d.ndjson" % (prefix, shard), events)
   json.dump(errors, open("%s.%d.err.json" % (prefix, shard), "w"))
   print(json.dumps({"events": len(events), "errors": len(errors)}))
